@@ -73,6 +73,9 @@ func c06Payload(kind string, n, salt int) []byte {
 	b := pat(n, salt)
 	if kind == "h264" && n > 0 {
 		b[0] = 0x65 // one IDR slice NAL (no start code inside: the pattern has no zero bytes)
+		if salt%3 == 0 {
+			b[0] = 0x67 // a lone SPS: held back by the payloader, the call yields no fragment
+		}
 	}
 	return b
 }
